@@ -81,19 +81,22 @@ func (l *listener) Listen() error {
 		return mangos.ErrAddrInUse
 	}
 	l.active = true
-	l.Unlock()
+	// The lock is kept while the transport sets itself up: the transports
+	// do not expect Close or Address to run while their Listen does.
 	if err := l.l.Listen(); err != nil {
-		l.Lock()
 		l.active = false
 		l.Unlock()
 		return err
 	}
+	l.Unlock()
 
 	go l.serve()
 	return nil
 }
 
 func (l *listener) Address() string {
+	l.Lock()
+	defer l.Unlock()
 	return l.l.Address()
 }
 
